@@ -2,6 +2,7 @@ import RedisVerif.Driver.Codec
 import RedisVerif.Model.SimRng
 import RedisVerif.Model.SimKernel
 import RedisVerif.Model.SimHarness
+import RedisVerif.Model.SimTyped
 
 /-
   C20 sub-driver (stateful).
@@ -190,7 +191,7 @@ def cmd (st : St) : P (St × String) := do
     let seed ← nat
     let ops ← nat
     let cfg ← restNats
-    match SimHarness.run h seed ops cfg with
+    match (SimTyped.run h seed ops cfg).orElse (fun _ => SimHarness.run h seed ops cfg) with
     | some t => pure (st, t)
     | none => failure
   | _ => failure
